@@ -19,9 +19,9 @@ CLAIMED = {
     "C07": ("SEQ", "Same BFS; every xattr entry point with set/delete subsets and failure causes (stale CAS, missing xattr, oversize, bad JSON) from every reachable xattr-bearing state; full read-back diff: only named xattrs change, body/expiry/other xattrs byte-identical, errors change nothing, CAS/CRC32c macros equal the new CAS / stored body checksum.", "3/C07"),
     "C08": ("SEQ+SCHED", "(a) same BFS with two live feeds (one per handle, one per feed API): exactly one faithful event per success on each feed (all fields against the post-state), none per failure. (b) scheduler DFS of 2-3 writers on different handles with a full and a KeysOnly feed: per feed strictly increasing CAS and the multiset of successful mutations.", "3/C08"),
     "C09": ("SEQ+SCHED", "(a) same BFS: at every state Dump feeds from CAS 0 and from four other start CAS values: framed by markers, ascending, exactly the documents with CAS >= s, each event equal to the document's state. (b) scheduler DFS of StartDCPFeed(backfill+live) against 1-2 writers: every key's final version delivered by backfill or live.", "3/C09"),
-    "C10": ("CRASH", "Every write-class system call (pwrite/write/ftruncate/fsync/fdatasync/unlink/rename under the bucket directory) of 2 (thorough 4) write histories of 9-13 calls is a crash point: the child is SIGKILLed there, a fresh process reopens the directory, and its complete contents must equal the state recorded after the last acknowledged call or after the interrupted one; pending expiry still fires; first new CAS above all stored.", "2.5, 3/C10"),
-    "C11": ("SEQ", "(a) KV BFS with same-key witnesses in another collection and another bucket (rows, every read, feeds) that must stay byte-identical; (b) isolation world: 28 operations on the subject collection incl. Touch, expiry, purge, design documents, views, queries, CreateIndex, drop and re-create, BFS depth 3/4 (disk 2/3): witness rows, reads, view and query results, design documents unchanged; dropped collection leaves nothing; re-created one is empty.", "3/C11"),
-    "C12": ("SEQ", "Views world: 21-25 write/ddoc/query operations (incl. SetWithMeta with CAS above/below, purge, drop+re-create, ddoc replaced through the other handle), BFS depth 3/4 (disk 2/3); after every step every view x 6 parameter sets is compared with a Go evaluation of the map functions over the stored rows (JSON collation order) and with a freshly created identical view.", "3/C12"),
+    "C10": ("CRASH", "Every write-class system call (pwrite/write/ftruncate/fsync/fdatasync/unlink/rename under the bucket directory) of four write histories of 9-13 calls (640 crash points) is a crash point: the child is SIGKILLed there, a fresh process reopens the directory, and its complete contents must equal the state recorded after the last acknowledged call or after the interrupted one; pending expiry still fires; first new CAS above all stored.", "2.5, 3/C10"),
+    "C11": ("SEQ", "(a) KV BFS with same-key witnesses in another collection and another bucket (rows, every read, feeds) that must stay byte-identical; (b) isolation world: 28 operations on the subject collection incl. Touch, expiry, purge, design documents, views, queries, CreateIndex, drop and re-create, BFS depth 3/4 (disk 2/3): witness rows, reads, view and query results, design documents unchanged; dropped collection leaves nothing; re-created one is empty; (c) views world with writes to another collection: a discrepancy that disappears when those writes are removed from the path is interference.", "3/C11"),
+    "C12": ("SEQ", "Views world: 21-25 write/ddoc/query operations (incl. SetWithMeta with CAS above/below, purge, drop+re-create, ddoc replaced through the other handle), BFS depth 4 in memory (disk 2/3), queries placed only where the path puts them; after every transition every view x 6 parameter sets is compared with a Go evaluation of the map functions over the stored rows (JSON collation order) and with a freshly created identical view.", "3/C12"),
     "C13": ("SEQ+SCHED", "(a) registry world: OpenBucket x 5 name/URL combinations x 3 modes, Close, repeated Close, CloseAndDelete over up to four handles, BFS depth 4/6; after every step a read+write probe on every handle, GetBucketNames, reference counts, directories. (b) scheduler DFS of 2-3 threads opening/probing/closing an existing on-disk bucket.", "3/C13"),
     "C14": ("SEQ", "Expiry world on the virtual clock: six expiry-carrying entry points x {0,+10,+30,absolute}, touches, PreserveExpiry paths, deletes on three keys in two collections, clock advances 5/15/40 s, reopen; BFS depth 4/5 (disk 3/4); readable with the right GetExpiry before T, tombstone + deletion event without any client call after T+5 s.", "3/C14"),
     "C15": ("SCHED", "Checkpointed feed stopped and resumed (terminator / finished dump) while 2 writers run, then a final resumed dump; every schedule within the deviation bound: every key's final version is delivered by some run, checkpoint never ahead of what was delivered.", "3/C15"),
